@@ -94,12 +94,29 @@ func (e *Engine) evalTerm(env *Env, x Expr) (Term, error) {
 func (e *Engine) lookupLocal(fr *Frame, name string) (*Ptr, types.Type, bool) {
 	// most recently allocated cell/alloc with this source name in this frame
 	var best *ssa.Alloc
+	bestID := int64(-1)
+	allocID := func(v Value) int64 {
+		p, ok := v.(*Ptr)
+		if !ok {
+			return -1
+		}
+		if p.Kind == pkCell {
+			return int64(p.Cell)
+		}
+		if p.Kind == pkObj {
+			if n, ok := litValue(p.Ref); ok && n.IsInt64() {
+				return n.Int64()
+			}
+		}
+		return -1
+	}
 	for _, b := range fr.fn.Blocks {
 		for _, in := range b.Instrs {
 			if al, ok := in.(*ssa.Alloc); ok && al.Comment == name {
-				if _, live := fr.regs[al]; live {
-					if best == nil || al.Pos() > best.Pos() {
-						best = al
+				if v, live := fr.regs[al]; live {
+					// the variable allocated last on this path (run-time order, not source position)
+					if id := allocID(v); best == nil || id > bestID {
+						best, bestID = al, id
 					}
 				}
 			}
@@ -241,8 +258,8 @@ func (e *Engine) eval(env *Env, x Expr) (TV, error) {
 			if err != nil {
 				return TV{}, err
 			}
-			name := fmt.Sprintf("q_%s_%d", qv.Name, e.u.counter)
-			e.u.counter++
+			// deterministic by nesting depth: the same clause always renders to the same text
+			name := fmt.Sprintf("q_%s_d%d", qv.Name, s.quant)
 			decls = append(decls, fmt.Sprintf("(%s %s)", name, sort))
 			t := Term{name, sort}
 			ce.vars[qv.Name] = s.fromTerm(t, ty)
@@ -272,7 +289,9 @@ func (e *Engine) eval(env *Env, x Expr) (TV, error) {
 		}
 		ce := env.child()
 		if t, ok := v.V.(Term); ok {
-			v.V = e.u.Define("let."+n.Name, t)
+			if s.quant == 0 {
+				v.V = e.u.Define("let."+n.Name, t)
+			}
 		}
 		ce.vars[n.Name] = v.V
 		ce.vtypes[n.Name] = v.T
@@ -937,6 +956,46 @@ func (e *Engine) evalCall(env *Env, n *ECall) (TV, error) {
 			return TV{}, err
 		}
 		return TV{Eq(App("i-type", SInt, a), IntLit(0)), types.Typ[types.Bool]}, nil
+	case "trimSpace", "toLower", "toUpper":
+		// the same uninterpreted functions the executor uses for strings.TrimSpace / ToLower / ToUpper
+		a, err := e.evalTerm(env, n.Args[0])
+		if err != nil {
+			return TV{}, err
+		}
+		fn := map[string]string{"trimSpace": "str.trimspace", "toLower": "str.tolower", "toUpper": "str.toupper"}[n.Fun]
+		e.u.DeclareFun(fn, []string{SString}, SString)
+		return TV{App(fn, SString, a), types.Typ[types.String]}, nil
+	case "equalFold":
+		a, err := e.evalTerm(env, n.Args[0])
+		if err != nil {
+			return TV{}, err
+		}
+		b, err := e.evalTerm(env, n.Args[1])
+		if err != nil {
+			return TV{}, err
+		}
+		e.u.DeclareFun("str.tolower", []string{SString}, SString)
+		return TV{Eq(App("str.tolower", SString, a), App("str.tolower", SString, b)), types.Typ[types.Bool]}, nil
+	case "hasPrefix":
+		a, err := e.evalTerm(env, n.Args[0])
+		if err != nil {
+			return TV{}, err
+		}
+		b, err := e.evalTerm(env, n.Args[1])
+		if err != nil {
+			return TV{}, err
+		}
+		return TV{App("str.prefixof", SBool, b, a), types.Typ[types.Bool]}, nil
+	case "hasSuffix":
+		a, err := e.evalTerm(env, n.Args[0])
+		if err != nil {
+			return TV{}, err
+		}
+		b, err := e.evalTerm(env, n.Args[1])
+		if err != nil {
+			return TV{}, err
+		}
+		return TV{App("str.suffixof", SBool, b, a), types.Typ[types.Bool]}, nil
 	case "has":
 		// has(m, k): key k is present in map m
 		mv, err := e.eval(env, n.Args[0])
@@ -1102,7 +1161,7 @@ func (e *Engine) evalSpecCall(env *Env, sf *SpecFunc, args []Expr) (TV, error) {
 			}
 		}
 	}
-	if sf.Body != nil {
+	if sf.Body != nil && !(sf.Opaque && !e.revealed(sf.Name)) {
 		for i, p := range sf.Params {
 			ty, _, err := e.resolveType(specEnv, p.Type)
 			if err != nil {
@@ -1110,7 +1169,9 @@ func (e *Engine) evalSpecCall(env *Env, sf *SpecFunc, args []Expr) (TV, error) {
 			}
 			v := avs[i]
 			if t, ok := v.V.(Term); ok {
-				v.V = e.u.Define("sp."+p.Name, t)
+				if env.s.quant == 0 {
+					v.V = e.u.Define("sp."+p.Name, t)
+				}
 				if ty != nil {
 					v.V = env.s.fromTerm(v.V.(Term), ty)
 				}
@@ -1179,3 +1240,16 @@ func (e *Engine) attachAxioms(env *Env, sym string) {
 }
 
 var _ = token.NoPos
+
+// revealed: an opaque spec function is expanded only in roots whose contract says "reveal name".
+func (e *Engine) revealed(name string) bool {
+	if e.rootContract == nil {
+		return false
+	}
+	for _, n := range strings.Split(e.rootContract.Flags["reveal"], ",") {
+		if strings.TrimSpace(n) == name {
+			return true
+		}
+	}
+	return false
+}
